@@ -27,6 +27,13 @@ StartupRefused).
           values, defaults, constants, datainfo, access mode, wire names, module properties), an erroneous configuration must
           be refused again with the same failing modules named, and the configuration objects handed to the server (the Mod /
           Param dicts the file produced) must be unchanged after each processing.
+  earlier run   the persistent-parameter class GP (frappy.persistent) is started on a node whose persistent directory
+          (generalConfig.logdir pointed at a scratch directory, removed afterwards) holds no file / a file an earlier run left with
+          other values for all / for one of the persistent parameters (a catalogue dimension like any entry): a value given in the
+          configuration is the start value whatever the file says, a value not given comes from the file.
+  falsy   module properties configured at their falsy / boundary values (omit_unchanged_within=0, group='', visibility='user',
+          export=False, op=0): judged by their EFFECT (updates of an unchanged value sent inside the window, module absent from
+          the description and not addressable), not only by the stored property.
   files   the same module configurations written as config *files* to a scratch directory (tempfile.mkdtemp, removed
           afterwards), one file or two files, looked up by name through generalConfig.confdir or by path, loaded and merged by
           the real frappy.config.load_config; the result must equal the in-process configuration (plus original_id for modules
@@ -106,6 +113,12 @@ MODEL = {
         'b': dict(kind='int', lo=0, hi=50, wire='_b', readonly=False, write=True, default=0),
         'gain': dict(kind='double', lo=0.0, hi=10.0, wire='_gain', readonly=False, write=True, default=1.0),
     },
+    'GP': {
+        'pw': dict(kind='double', lo=0.0, hi=100.0, wire='_pw', readonly=False, write=True, persistent=True, default=1.0),
+        'pn': dict(kind='double', lo=0.0, hi=100.0, wire='_pn', readonly=False, write=False, persistent=True, default=2.0),
+        'pr': dict(kind='double', lo=0.0, hi=100.0, wire='_pr', readonly=True, write=False, persistent=True, default=3.0),
+        'q': dict(kind='double', lo=0.0, hi=100.0, wire='_q', readonly=False, write=True, default=4.0),
+    },
     'GQ': {
         'g': dict(kind='double', lo=0.0, hi=100.0, wire='_g', readonly=False, write=True, default=1.0),
         'h': dict(kind='string', wire='_h', readonly=False, write=False, default=''),
@@ -132,7 +145,7 @@ VISIBILITY = {'user': 1, 'advanced': 2, 'expert': 3}
 # datatype properties limiting a length, per kind: (lower key, upper key)
 LENKEYS = {'string': ('minchars', 'maxchars'), 'array-double': ('minlen', 'maxlen'), 'blob': ('minbytes', 'maxbytes')}
 ALL_LENKEYS = {k for pair in LENKEYS.values() for k in pair}
-POLLED = {'GW': True, 'GS': True, 'GA': True, 'GN': True, 'GD': True, 'GQ': False, 'GH': False, 'GO': True, 'GOI': True}    # enablePoll of the class
+POLLED = {'GP': True, 'GW': True, 'GS': True, 'GA': True, 'GN': True, 'GD': True, 'GQ': False, 'GH': False, 'GO': True, 'GOI': True}    # enablePoll of the class
 # optional accessibles declared by a base class and NOT implemented by the class: they do not exist on its modules
 UNIMPLEMENTED = {'GO': {'opt', 'ocmd'}, 'GOI': {'ocmd'}}
 AUX_IO = 'mod_io'      # auxiliary io module (class GIO) present in every node with a GH module
@@ -192,12 +205,31 @@ ENTRIES['GW'] = [
     ('a=3', 'a', 'value', 'bare', 3), ('b=P4', 'b', 'value', 'param', 4), ('bmax', 'b', 'max', '', 9),
     ('gain=2', 'gain', 'value', 'bare', 2),
 ]
+# '@file': not a configuration entry but the state an earlier run left in the persistent file of the module
+ENTRIES['GP'] = [
+    ('pw=5', 'pw', 'value', 'bare', 5), ('pwmax', 'pw', 'max', '', 50),
+    ('pn=6', 'pn', 'value', 'bare', 6), ('pndef', 'pn', 'default', '', 8),
+    ('pr=P7', 'pr', 'value', 'param', 7), ('prdef', 'pr', 'default', '', 9),
+    ('q=9', 'q', 'value', 'bare', 9),
+    ('file-all', '@file', 'prior', '', {'pw': 11.0, 'pn': 12.0, 'pr': 13.0}),
+    ('file-pn', '@file', 'prior', '', {'pn': 12.0}),
+]
+# module properties at their falsy / boundary values
+FALSY = [('omit0', '', 'omit_unchanged_within', 'bare', 0), ('omit.5', '', 'omit_unchanged_within', 'bare', 0.5),
+         ('grp-empty', '', 'group', 'bare', ''), ('vis-user', '', 'visibility', 'bare', 'user'),
+         ('noexport', '', 'export', 'bare', False)]
+ENTRIES['GD'] += FALSY
+ENTRIES['GQ'] += [FALSY[0], FALSY[4]]
+ENTRIES['GS'] += [FALSY[0], FALSY[4]]
+ENTRIES['GP'] += [FALSY[0]]
+ENTRIES['GN'] += [('op=0', '', 'op', 'bare', 0)]
+MODPROP_DEFAULT = {'group': '', 'visibility': 'user'}      # configured as the default: may be left out of the description
 ENTRIES['GO'] = [('fmax', 'f', 'max', '', 8), ('f=3', 'f', 'value', 'bare', 3), ('grp', '', 'group', 'bare', 'grp')]
 ENTRIES['GOI'] = [('opt=5', 'opt', 'value', 'bare', 5), ('optmax', 'opt', 'max', '', 10), ('optdef', 'opt', 'default', '', 4),
                   ('f=3', 'f', 'value', 'bare', 3)]
 # entries every valid configuration of the class contains (needscfg parameter, mandatory property, io module)
 REQUIRED = {
-    'GA': [], 'GD': [], 'GQ': [], 'GO': [], 'GOI': [], 'GS': [], 'GW': [],
+    'GA': [], 'GD': [], 'GQ': [], 'GO': [], 'GOI': [], 'GS': [], 'GW': [], 'GP': [],
     'GN': [('n=3', 'n', 'value', 'bare', 3), ('mp', '', 'mp', 'bare', 'x')],
     'GH': [('io', '', 'io', 'bare', AUX_IO)],
 }
@@ -208,6 +240,7 @@ CONTEXTS = {
     'GD': [[], ['t=20'], ['tmax']],
     'GQ': [[], ['g=5']], 'GH': [[], ['g=5']], 'GO': [[]], 'GOI': [[], ['opt=5']], 'GS': [[], ['s=P12', 'smax16']],
     'GW': [[], ['p=10', 'd=30']],
+    'GP': [[], ['pn=6', 'file-all']],
 }
 # contexts of the two-module nodes of the 'pairs' sub-check: Param(value, override) forms, so that equal Param expressions occur
 PAIRCTX = {
@@ -216,6 +249,7 @@ PAIRCTX = {
     'GD': [[], ['t=P20', 'tmax']],
     'GS': [[], ['s=P12', 'smax16'], ['arr=P6', 'amax6', 'bl=2']],
     'GW': [[], ['p=10', 'i=P20', 'imax']],
+    'GP': [[], ['pn=6', 'pr=P7', 'file-all']],
     'GQ': [[], ['g=P7.5', 'gmax']], 'GH': [[], ['g=P7.5', 'gmax']],
     'GO': [[], ['fmax']], 'GOI': [[], ['opt=5', 'optmax']],
 }
@@ -271,6 +305,7 @@ ERRORS['GW'] = [
     ('type-p', 'wrong-type', 'add', ('p', 'value', 'x')),
     ('inv-i', 'inverted-limits', 'add2', (('i', 'min', 60), ('i', 'max', 40))),
 ]
+ERRORS['GP'] = [('unk-name', 'unknown-name', 'add', ('nosuch', 'value', 1)), ('type-pn', 'wrong-type', 'add', ('pn', 'value', 'x'))]
 ERRORS['GO'] = [
     ('unimpl-opt-value', 'unknown-name', 'add', ('opt', 'value', 5)),
     ('unimpl-opt-prop', 'unknown-name', 'add', ('opt', 'max', 10)),
@@ -278,9 +313,9 @@ ERRORS['GO'] = [
     ('unk-name', 'unknown-name', 'add', ('nosuch', 'value', 1)),
 ]
 ERRORS['GOI'] = [('unimpl-optcmd-prop', 'unknown-name', 'add', ('ocmd', 'visibility', 'expert'))]
-CLASSES = ['GA', 'GN', 'GD', 'GS', 'GW', 'GQ', 'GH', 'GO', 'GOI']
+CLASSES = ['GA', 'GN', 'GD', 'GS', 'GW', 'GP', 'GQ', 'GH', 'GO', 'GOI']
 WIDE_CLASSES = ['GA', 'GN', 'GD', 'GS', 'GW', 'GQ', 'GO']      # class tuples of the 3-module nodes (thorough)
-FILE_CLASSES = ['GA', 'GN', 'GD', 'GS', 'GW', 'GQ', 'GO', 'GOI']   # GH needs the auxiliary io module: direct mode only
+FILE_CLASSES = ['GA', 'GN', 'GD', 'GS', 'GW', 'GP', 'GQ', 'GO', 'GOI']   # GH needs the auxiliary io module: direct mode only
 MODNAMES = ['mod_a', 'mod_b', 'mod_c']
 
 
@@ -344,6 +379,8 @@ def group_items(items):
     """-> ordered {config keyword: ('bare', v) | ('param', {key: v})} as it is written in a Mod(...) call"""
     kw = {}
     for target, key, form, val in items:
+        if target.startswith('@'):
+            continue      # a state of the environment (file of an earlier run), not a configuration entry
         if target == '':
             # module level keyword: a module property (or an unknown name)
             kw[key] = ('bare', val)
@@ -504,7 +541,11 @@ class Ref:
         self.items = items
         self.per = {}        # accessible -> {key: value}
         self.modprops = {}
+        self.prior = None    # what an earlier run left in the module's persistent file (None: no file)
         for target, key, _form, val in items:
+            if target == '@file':
+                self.prior = val
+                continue
             if target == '':
                 self.modprops[key] = val
             else:
@@ -568,6 +609,8 @@ class Ref:
         m = self.model[p]
         if 'value' in cfg:
             return conv(m, cfg['value']), 'value-outside-limits' if self.outside(p, 'value') else 'value'
+        if m.get('persistent') and self.prior and p in self.prior:
+            return conv(m, self.prior[p]), 'earlier-run-file'
         if 'default' in cfg:
             return conv(m, cfg['default']), 'default-outside-limits' if self.outside(p, 'default') else 'default'
         return None
@@ -679,7 +722,7 @@ def kinds(cls, items):
     """normalised description of a configuration for signatures"""
     out = []
     for target, key, form, _val in items:
-        tk = 'module' if target == '' else MODEL[cls].get(target, {}).get('kind', 'unknown')
+        tk = 'module' if target == '' else 'earlier-run' if target.startswith('@') else MODEL[cls].get(target, {}).get('kind', 'unknown')
         out.append(f'{tk}.{key}' + ('-bare' if form == 'bare' and target else ''))
     return '+'.join(sorted(out))
 
